@@ -83,6 +83,9 @@ def engine_cases(
             ti = draw(st.sampled_from(file_toks))
             dies = draw(st.booleans())
             extras.append(["facq", f, ti, draw(st.integers(1, toks[ti]["total"])), draw(st.booleans()), dies])
+            if chance(draw, 35):
+                # that holder releases exactly when one of our acquisitions is refused
+                extras.append(["frelrace", f, ti])
             if len(file_toks) > 1 and chance(draw, 50):
                 # the same foreign job also holds the other file token
                 tj = [t for t in file_toks if t != ti][0]
